@@ -8,7 +8,7 @@ for d in sorted(glob.glob('/verif/seeded/C*')):
     sid=os.path.basename(d); n+=1
     runs=m['final']['results'] if 'final' in m else m['checks_run']
     caught=[r for r in runs if r['exit']==1]
-    if caught: caught_n+=1
+    if [r for r in caught if not r['check'].endswith('-thorough')]: caught_n+=1
     by=', '.join(sorted(set(r['check'] for r in caught)))
     labels=[]
     for r in caught:
